@@ -829,7 +829,9 @@ def _run(lab):
         elif a == 'delta':
             dl = clock.next_deadline()
             if dl is not None and dl > clock.now:
-                clock.now += (dl - clock.now) * rnd.choice([0.25, 0.5, 0.999])
+                t = clock.now + (dl - clock.now) * rnd.choice([0.25, 0.5, 0.999])
+                if t < dl:      # never *reach* a deadline without firing its timer (float rounding can)
+                    clock.now = t
             lab.decisions.append(('delta', clock.now))
         elif a == 'enqueue':
             m, e = lab.new_envelope(nmsg, rnd.randint(*cfg.get('rcpts', (1, 3))),
